@@ -50,9 +50,10 @@ VARIABLES pid,     \* index of the program of the batch this behaviour executes
           xnode,   \* the node whose execution raised it (0 = none)
           xfirst,  \* the node that raised the FIRST exception of the execution (0 = none); never reset
           delx,    \* some `del` of an unbound variable has raised in this execution
+          hb,      \* cells that currently hold a value bound by an `except ... as name` clause
           crossed, \* an exception has crossed an activation boundary (raised by a callee into its caller)
           oc       \* "outside the class": an exception raised by a call was caught by a handler of the caller
-vars == <<pid, ctrl, envs, cells, log, dec, status, cur, how, rd, wr, steps, inp, xlog, xnode, xfirst, delx, crossed, oc>>
+vars == <<pid, ctrl, envs, cells, log, dec, status, cur, how, rd, wr, steps, inp, xlog, xnode, xfirst, delx, hb, crossed, oc>>
 
 P        == Progs[pid]
 ND(n)    == P.nodes[n]
@@ -386,6 +387,8 @@ Step ==
      /\ xlog' = IF how' = "exc" /\ ~resumed THEN Len(log') ELSE xlog
      /\ xnode' = IF how' = "exc" /\ ~resumed THEN cur' ELSE xnode
      /\ xfirst' = IF how' = "exc" /\ ~resumed /\ xfirst = 0 THEN cur' ELSE xfirst
+     /\ hb' = (hb \ wr') \cup (IF how' = "exc" /\ status'[1] = "run" /\ ctrl'[Len(ctrl')].k = "handler"
+                             THEN {c \in wr' : cells'[c][1] = "x"} ELSE {})
      /\ delx' = (delx \/ (how' = "exc" /\ ~resumed /\ cur' # 0 /\ ND(cur').kind = "del"))
      /\ crossed' = cr
      /\ oc' = (oc \/ (cr /\ how' = "exc" /\ status'[1] = "run" /\ ctrl'[Len(ctrl')].k = "handler"))
@@ -404,7 +407,7 @@ Init ==
                                 ELSE Unbound]
   /\ ctrl = << Frame("call", FN(1).body, 0, 1) >>
   /\ log = <<>> /\ dec = <<>> /\ status = <<"run", NoneV>> /\ cur = 0 /\ steps = 0 /\ how = ""
-  /\ rd = {} /\ wr = {} /\ xlog = 0 /\ xnode = 0 /\ xfirst = 0 /\ delx = FALSE /\ crossed = FALSE /\ oc = FALSE
+  /\ rd = {} /\ wr = {} /\ xlog = 0 /\ xnode = 0 /\ xfirst = 0 /\ delx = FALSE /\ hb = {} /\ crossed = FALSE /\ oc = FALSE
 
 Spec == Init /\ [][Step]_vars
 DecBound == Len(dec) <= MaxDec      \* CONSTRAINT: executions consuming more decisions are not explored further
